@@ -32,7 +32,7 @@ type FileCfg struct {
 	Go      bool              `json:"go"`      // rewrite go statements
 	Gosched bool              `json:"gosched"` // rewrite runtime.Gosched()
 	Skip    []string          `json:"skip"`    // functions excluded from "*"
-	Atomic  []string          `json:"atomic"`  // functions executed as one scheduler step (points inside are suppressed)
+	Atomic  []string          `json:"atomic"`  // functions executed as one scheduler step (points inside are suppressed); "Name@1" = only when vsched.AtomicLevel >= 1
 	Filter  string            `json:"filter"`  // "shared" (default): only statements whose own expressions contain a call, selector, dereference or channel operation; "all": every statement
 }
 
@@ -309,8 +309,12 @@ func instrument(src, dst string, fc FileCfg) error {
 			sel = true
 		}
 		for _, a := range fc.Atomic {
+			lvl := "0"
+			if i := strings.Index(a, "@"); i > 0 {
+				a, lvl = a[:i], a[i+1:]
+			}
 			if a == name || a == fd.Name.Name {
-				add(off(fd.Body.Lbrace)+1, off(fd.Body.Lbrace)+1, " vsched.AtomicEnter(); defer vsched.AtomicLeave(); ")
+				add(off(fd.Body.Lbrace)+1, off(fd.Body.Lbrace)+1, " defer vsched.AtomicRegion("+lvl+")(); ")
 				usesSched = true
 			}
 		}
